@@ -673,7 +673,10 @@ class SimulationBuilder:
                 for period_str in self.input_buffer[variable_name]
             ]
             # We need to handle small periods first for set_input to work
-            sorted_periods = sorted(unsorted_periods, key=periods.key_period_size)
+            sorted_periods = sorted(
+                unsorted_periods,
+                key=lambda period: (periods.unit_weight(period.unit), period.size),
+            )
             for period_value in sorted_periods:
                 values = buffer[str(period_value)]
                 # Hack to replicate the values in the persons entity
